@@ -38,12 +38,15 @@ void scpi_verif_input_buffer(scpi_t * context, int phase) {
 void vh_unpoison_input(vh_ctx_t * v) { ASAN_UNPOISON_MEMORY_REGION(v->inbuf, v->inbuf_len); (void) v; }
 
 /* ---- capture interface ----------------------------------------------------------- */
+void (*vh_on_write_cb)(scpi_t * context, const char * data, size_t len);
+void (*vh_on_error_cb)(scpi_t * context, int err);
 static size_t cb_write(scpi_t * context, const char * data, size_t len) {
     vh_ctx_t * v = VH_OF(context);
     vh_buf_add(&v->out, data, len);
     v->nwrite++;
     v->write_after_flush = 1;
     if (v->log_enabled && v->log_writes) { vh_buf_adds(&v->log, "W "); vh_buf_add_escaped(&v->log, data, len); vh_buf_addc(&v->log, '\n'); }
+    if (vh_on_write_cb) vh_on_write_cb(context, data, len);
     return len;
 }
 static scpi_result_t cb_flush(scpi_t * context) {
@@ -58,6 +61,7 @@ static int cb_error(scpi_t * context, int_fast16_t err) {
     if (v->nerrs < VH_MAX_ERRS) v->errs[v->nerrs++] = (int16_t) err;
     v->nerrs_total++;
     if (v->log_enabled) vh_buf_printf(&v->log, "E %d\n", (int) err);
+    if (vh_on_error_cb) vh_on_error_cb(context, (int) err);
     return 0;
 }
 static scpi_result_t cb_control(scpi_t * context, scpi_ctrl_name_t ctrl, scpi_reg_val_t val) {
